@@ -47,15 +47,25 @@ class Trace:
         self.patched_modules = []
 
     def tid(self):
-        return self.tid_of.get(threading.get_ident(), 0)
+        return self.tid_of.get(threading.get_ident(), 1000)   # 1000 = the main (harness) thread
 
     def rec(self, op, sid, cls, ans, func=""):
         if self.on:
             self.log.append((self.tid(), op, sid, cls, ans, func))
 
     def start(self):
+        """Start a fresh log.  If the calling thread's slot is not empty (an implementation that keeps an empty
+        set instead of deleting the attribute is just as good), the log starts with a synthetic `set` event so
+        that the replay begins from the real state."""
         self.log = []
         self.on = True
+        ag = getattr(sys.modules.get("cattrs.gen._consts"), "already_generating", None)
+        if isinstance(ag, TracingLocal):
+            try:
+                v = _orig_local.__getattribute__(ag, "working_set")
+            except AttributeError:
+                return
+            ag.working_set = v      # logged by TracingLocal.__setattr__ (same object, no copy)
 
     def stop(self):
         self.on = False
@@ -260,37 +270,128 @@ def policy_from_json(d):
 
 # ------------------------------------------------------------------------------------------------ scheduler
 
-def default_want(code, _cache={}):
+_PURE_FILES = ("_compat.py", "_generics.py", "typealiases.py", "fns.py", "literals.py", "errors.py", "_lc.py")
+_src_cache = {}
+
+
+def _is_cattrs_file(fn):
+    return (os.sep + "cattrs" + os.sep in fn and "site-packages" not in fn and os.sep + "harness" + os.sep not in fn)
+
+
+def full_want(code, _cache={}):
+    """Every line of every cattrs source file and of cattrs-generated code is a scheduling point."""
     fn = code.co_filename
     r = _cache.get(fn)
     if r is None:
-        r = fn.startswith("<cattrs generated") or (os.sep + "cattrs" + os.sep in fn and "site-packages" not in fn
-                                                   and os.sep + "harness" + os.sep not in fn)
+        r = fn.startswith("<cattrs generated") or _is_cattrs_file(fn)
         _cache[fn] = r
     return r
 
 
-class Scheduler:
-    TIMEOUT = 30.0
+def reduced_want(code, _files={}, _funcs={}):
+    """Partial-order reduction: no scheduling points inside code that touches no state shared between threads --
+    the pure type predicates / helpers of `_compat.py` (except `adapted_fields`, which resolves string
+    annotations ON the class), `_generics.py`, `typealiases.py`, `fns.py`, `literals.py`, `errors.py`, `gen/_lc.py`
+    (a single `dict.setdefault`), and the predicate loop of `FunctionDispatch.dispatch` (only the lines that call
+    a handler factory remain).  A switch at such a line commutes with the other threads' steps, so it is
+    equivalent to a switch at the next remaining point.  Returns False / True / a frozenset of line numbers.
+    (Nothing is cached per code object: hashing a code object is expensive and would keep generated code alive.)"""
+    fn = code.co_filename
+    kind = _files.get(fn)
+    if kind is None:
+        if fn.startswith("<cattrs generated"):
+            kind = "all"
+        elif not _is_cattrs_file(fn):
+            kind = "none"
+        elif os.path.basename(fn) in _PURE_FILES:
+            kind = "pure"
+        elif os.path.basename(fn) == "dispatch.py":
+            kind = "dispatch"
+        else:
+            kind = "all"
+        if len(_files) > 5000:
+            _files.clear()
+        _files[fn] = kind
+    if kind == "all":
+        return True
+    if kind == "none":
+        return False
+    if kind == "pure":
+        return code.co_name == "adapted_fields"
+    if code.co_name != "dispatch" or "can_handle" not in code.co_varnames:
+        return True
+    key = (fn, code.co_firstlineno)
+    r = _funcs.get(key)
+    if r is None:
+        try:
+            src = open(fn).read().split("\n")
+        except OSError:
+            src = []
+        first = code.co_firstlineno
+        last = max([ln for _, _, ln in code.co_lines() if ln is not None] + [first])
+        r = frozenset(ln for ln in range(first, last + 1) if ln - 1 < len(src) and "handler(" in src[ln - 1]) or False
+        _funcs[key] = r
+    return r
 
-    def __init__(self, policy, want=default_want, record_points=False):
+
+default_want = reduced_want
+
+
+class _Gate:
+    """Binary semaphore on a raw lock (threading.Semaphore is pure Python and several times slower)."""
+    __slots__ = ("lock", "free")
+
+    def __init__(self):
+        self.lock = threading.Lock()
+        self.lock.acquire()
+        self.free = False
+
+    def release(self):
+        try:
+            self.lock.release()
+        except RuntimeError:
+            pass
+
+    def acquire(self, timeout):
+        if self.free:
+            return True
+        return self.lock.acquire(timeout=timeout) or self.free
+
+    def open_forever(self):
+        self.free = True
+        self.release()
+
+
+class Scheduler:
+    """Exactly one of the N worker threads runs at any time.  Scheduling points are delivered by `sys.monitoring`
+    LINE events (Python >= 3.12; enabled only for the code objects `want` selects, so untraced code runs at full
+    speed) or, failing that, by `sys.settrace`."""
+    TIMEOUT = 30.0
+    _mon_ready = False
+    _active = None            # the scheduler whose workers are running (at most one at a time)
+    _only = {}                # code object -> frozenset of line numbers that are scheduling points
+    _want = None
+
+    def __init__(self, policy, want=None, record_points=False, use_monitoring=True):
         self.policy = policy
-        self.want = want
+        self.want = want or default_want
         self.record_points = record_points
+        self.use_monitoring = use_monitoring and hasattr(sys, "monitoring")
         self.points = []          # (tid, own_step, filename, lineno) when record_points
         self.steps = 0            # scheduling points in total
         self.switches = 0
         self.own = []
         self.abort = False
+        self.timed_out = False
 
     # -- executed by the thread holding the token
-    def _yield(self, ix, frame):
+    def _yield(self, ix, filename, lineno):
         if self.abort:
             return
         self.steps += 1
         self.own[ix] += 1
         if self.record_points:
-            self.points.append((ix, self.own[ix], frame.f_code.co_filename, frame.f_lineno))
+            self.points.append((ix, self.own[ix], filename, lineno))
         nxt = self.policy.choose(ix, self.own[ix], self.live)
         if nxt != ix:
             self.switches += 1
@@ -299,29 +400,89 @@ class Scheduler:
                 self.abort = True
                 self.timed_out = True
 
+    # -- sys.monitoring back end
+    @classmethod
+    def _setup_monitoring(cls, want):
+        mon = sys.monitoring
+        if cls._mon_ready and cls._want is want:
+            return True
+        tool = mon.DEBUGGER_ID
+        if not cls._mon_ready:
+            if mon.get_tool(tool) is not None:
+                return False
+            mon.use_tool_id(tool, "c19-scheduler")
+        else:                      # different filter: forget what was enabled
+            mon.set_events(tool, 0)
+            for code in list(cls._enabled):
+                mon.set_local_events(tool, code, 0)
+            mon.restart_events()
+        cls._want = want
+        cls._only = {}
+        cls._enabled = []
+        only = cls._only
+        enabled = cls._enabled
+        tid_of = TRACE.tid_of
+        get_ident = threading.get_ident
+
+        def on_start(code, offset):
+            w = want(code)
+            if w:
+                if w is not True:
+                    only[id(code)] = w
+                mon.set_local_events(tool, code, mon.events.LINE)
+                if not code.co_filename.startswith("<"):
+                    enabled.append(code)      # keeps the code object alive, so its id stays valid
+            return mon.DISABLE
+
+        def on_line(code, lineno):
+            S = cls._active
+            if S is None:
+                return
+            ix = tid_of.get(get_ident())
+            if ix is None:
+                return
+            ls = only.get(id(code)) if only else None
+            if ls is None or lineno in ls:
+                S._yield(ix, code.co_filename, lineno)
+
+        mon.register_callback(tool, mon.events.PY_START, on_start)
+        mon.register_callback(tool, mon.events.LINE, on_line)
+        mon.set_events(tool, mon.events.PY_START)
+        cls._mon_ready = True
+        return True
+
+    # -- sys.settrace back end
     def _tracer(self, ix):
         want = self.want
         yield_ = self._yield
+        only = {}
 
         def local(frame, event, arg):
             if event == "line":
-                yield_(ix, frame)
+                ls = only.get(frame.f_code)
+                if ls is None or frame.f_lineno in ls:
+                    yield_(ix, frame.f_code.co_filename, frame.f_lineno)
             return local
 
         def glob(frame, event, arg):
-            if event == "call" and want(frame.f_code):
-                return local
+            if event == "call":
+                w = want(frame.f_code)
+                if w is True:
+                    return local
+                if w:
+                    only[frame.f_code] = w
+                    return local
             return None
 
         return glob
 
     def _worker(self, ix, fn):
-        TRACE.tid_of[threading.get_ident()] = ix
         ok = self.sems[ix].acquire(timeout=self.TIMEOUT)
         if not ok:
             self.abort = True
             self.timed_out = True
-        if not self.abort:
+        TRACE.tid_of[threading.get_ident()] = ix
+        if not self.abort and not self.monitoring:
             sys.settrace(self._tracer(ix))
         try:
             self.out[ix] = ("ok", fn())
@@ -339,25 +500,28 @@ class Scheduler:
 
     def run(self, fns):
         n = len(fns)
-        self.sems = [threading.Semaphore(0) for _ in range(n)]
+        self.monitoring = self.use_monitoring and self._setup_monitoring(self.want)
+        self.sems = [_Gate() for _ in range(n)]
         self.out = [None] * n
         self.own = [0] * n
         self.live = list(range(n))
         self.all_done = threading.Event()
-        self.timed_out = False
         ths = [threading.Thread(target=self._worker, args=(i, f), daemon=True, name=f"c19-{i}") for i, f in enumerate(fns)]
-        for t in ths:
-            t.start()
-        self.sems[self.policy.start(self.live)].release()
-        finished = self.all_done.wait(timeout=self.TIMEOUT * 2)
-        if not finished or self.timed_out:
-            self.abort = True
-            for s in self.sems:      # let everybody run free to completion
-                for _ in range(4):
-                    s.release()
-        deadline = time.time() + self.TIMEOUT
-        for t in ths:
-            t.join(timeout=max(0.1, deadline - time.time()))
+        Scheduler._active = self
+        try:
+            for t in ths:
+                t.start()
+            self.sems[self.policy.start(self.live)].release()
+            finished = self.all_done.wait(timeout=self.TIMEOUT * 2)
+            if not finished or self.timed_out:
+                self.abort = True
+                for s in self.sems:      # let everybody run free to completion
+                    s.open_forever()
+            deadline = time.time() + self.TIMEOUT
+            for t in ths:
+                t.join(timeout=max(0.1, deadline - time.time()))
+        finally:
+            Scheduler._active = None
         left = [t.name for t in ths if t.is_alive()]
         if not finished or self.timed_out or left:
             raise SchedTimeout(f"scheduler timed out (threads left: {left})")
